@@ -32,7 +32,7 @@ func operandLayouts(c *core.Ctx) []string {
 	if c.Prop == "C16" {
 		return []string{"C", "F", "Fconv", "FT", "FS", "FSS"}
 	}
-	return []string{"C", "T", "S", "SS", "MS"}
+	return []string{"C", "T", "S", "SS", "MS", "F"}
 }
 
 func shapeStr(s []int) string {
